@@ -1,19 +1,20 @@
-\* thorough design model: as MC_ChemkinDoc.cfg with <= 3 molecules per side (15 sides, 210 reactions
-\* per species choice)
+\* EXPECTED TO BE REJECTED (RunsInv): write_EA evaluating the activation method once per distinct
+\* temperature of a reaction and re-using it for later runs at that temperature; TLC exhibits a run
+\* list with equal T and different P
 SPECIFICATION Spec
 CONSTANTS
   Pool <- MCPool
   Sites <- MCSites
   MaxSp = 3
   MaxRx = 2
-  MaxMol = 3
+  MaxMol = 2
   MaxCoef = 2
   GasTest = "all"
   LoneBulk = FALSE
   SDelims <- MCSDelims
   RDelims <- MCRDelims
   RunLists <- MCRunLists
-  EvalMode = "each"
+  EvalMode = "memoT"
 INVARIANT DistinctInv
 INVARIANT Partition
 INVARIANT EachOnceReactions
